@@ -58,7 +58,10 @@ def normalise(src, dst):
     with open(dst, 'w') as out:
         skipping = False
         for line in open(src):
-            ev = json.loads(line)
+            try:
+                ev = json.loads(line)
+            except ValueError:
+                break  # truncated last line: the driver died (reported by ctx.driver)
             e = ev.get('e')
             if e in ('Stalled', 'Deadlock'):
                 if not skipping:  # (a Deadlock during tear-down is the controller's join race)
